@@ -6,8 +6,47 @@
  *   VF_ALIAS 0: c distinct, 1: c == a, 2: c == b
  *   VF_OP 1 add, 2 sub, 3 sub_s (|a| >= |b|), 4 cmp/cmp_mag, 5 mul_2/div_2,
  *         6 lshd/rshd by VF_SH digits, 7 add_d/sub_d (b is one digit)
+ *         9 div_2d (quotient and remainder of a / 2^b, b symbolic in 0..VF_UA*64+1)
+ *        10 div / mod (quotient of at most VF_QBITS bits; see below)
  */
 #include "vf.h"
+#if VF_OP == 10
+/* pstm_init() allocates (MIN_RSA_BITS / DIGIT_BIT) * 3 digits for every
+ * temporary; scaled down to 6 digits (operands here are <= 2 digits) so that
+ * the zeroing / copy loops of the temporaries stay small */
+# include "crypto/cryptoImpl.h"
+# undef MIN_RSA_BITS
+# define MIN_RSA_BITS 128
+# ifdef VF_CBMC
+/* the temporaries of pstm_div come from a bump allocator over static slots
+ * (CBMC's heap model plus pstm_exch pointer swaps is out of reach); every
+ * slot has exactly the requested 6 digits, free() is a no-op */
+static pstm_digit vf_s0[6], vf_s1[6], vf_s2[6], vf_s3[6], vf_s4[6], vf_s5[6], vf_s6[6], vf_s7[6];
+static int vf_slot;
+static void *vf_pool_malloc(size_t n)
+{
+    __CPROVER_assert(n == 6 * sizeof(pstm_digit), "VF:c13.model.allocation_size_is_six_digits");
+    __CPROVER_assume(vf_slot < 8);
+    switch (vf_slot++)
+    {
+    case 0: return vf_s0;
+    case 1: return vf_s1;
+    case 2: return vf_s2;
+    case 3: return vf_s3;
+    case 4: return vf_s4;
+    case 5: return vf_s5;
+    case 6: return vf_s6;
+    default: return vf_s7;
+    }
+}
+static void vf_pool_free(void *p)
+{
+    (void) p;
+}
+#  define malloc vf_pool_malloc
+#  define free vf_pool_free
+# endif
+#endif
 #include "crypto/math/pstm.c"
 #include "trace_stubs.h"
 
@@ -25,6 +64,12 @@
 #endif
 #ifndef VF_UC
 # define VF_UC 2
+#endif
+#ifndef VF_QBITS
+# define VF_QBITS 8
+#endif
+#ifndef VF_MOD
+# define VF_MOD 0
 #endif
 #define ND 8 /* capacity of every operand: no reallocation on these sizes */
 
@@ -257,6 +302,119 @@ VF_MAIN
         check_equals(c, &sh, "lshd");
         pstm_rshd(c, VF_SH);
         check_equals(c, &ra, "rshd");
+    }
+#elif VF_OP == 9
+    {
+        /* c = a / 2^sh (truncated), d = a - c * 2^sh, for every shift count */
+        ref_t q, r;
+        int i;
+        int16_t sh = (int16_t) vf_u16();
+        unsigned ds, bs;
+        pstm_int *rem = vf_bool() ? &Bv : NULL;
+        VF_ASSUME(sh >= -1 && sh <= VF_UA * 64 + 1);
+        ds = (sh > 0) ? (unsigned) sh / 64 : 0;
+        bs = (sh > 0) ? (unsigned) sh % 64 : 0;
+        memset(&q, 0, sizeof(q));
+        memset(&r, 0, sizeof(r));
+        for (i = 0; i < ND; i++)
+        {
+            uint64_t lo = (i + ds < ND) ? ra.d[i + ds] : 0;
+            uint64_t hi = (i + ds + 1 < ND) ? ra.d[i + ds + 1] : 0;
+            q.d[i] = bs ? ((lo >> bs) | (hi << (64 - bs))) : lo;
+            if ((unsigned) i < ds)
+            {
+                r.d[i] = ra.d[i];
+            }
+            else if ((unsigned) i == ds && bs)
+            {
+                r.d[i] = ra.d[i] & ((((uint64_t) 1) << bs) - 1);
+            }
+        }
+        q.neg = ra.neg && !ref_is_zero(&q);
+        r.neg = ra.neg && !ref_is_zero(&r);
+        rc32 = pstm_div_2d(NULL, a, sh, c, rem);
+        VF_ASSERT(rc32 == PSTM_OKAY, "c13.div_2d_ok");
+        check_equals(c, &q, "div_2d");
+        if (rem != NULL)
+        {
+            VF_REACH("div_2d_remainder");
+            check_equals(rem, &r, "div_2d.rem");
+        }
+    }
+#elif VF_OP == 10
+    {
+        /* a = q * b + r, |r| < |b|, sign(r) = sign(a), sign(q) = sign(a)*sign(b);
+           bound: bitlen(a) - bitlen(b) < VF_QBITS (the shift-subtract loop of
+           pstm_div runs once per quotient bit) */
+        static pstm_int Q, R;
+        ref_t rq, rr, acc, t;
+        int i, k, ba, bb;
+        VF_ASSUME(VF_UB > 0);
+        ba = pstm_count_bits(a);
+        bb = pstm_count_bits(b);
+        VF_ASSUME(ba - bb < VF_QBITS);
+        VF_ASSUME(pstm_init(NULL, &Q) == PSTM_OKAY && pstm_init(NULL, &R) == PSTM_OKAY);
+#if VF_MOD
+        rc32 = pstm_mod(NULL, a, b, &R);
+        VF_ASSERT(rc32 == PSTM_OKAY, "c13.mod_ok");
+#else
+        rc32 = pstm_div(NULL, a, b, &Q, &R);
+        VF_ASSERT(rc32 == PSTM_OKAY, "c13.div_ok");
+#endif
+        to_ref(&R, &rr);
+        VF_ASSERT(R.used <= ND, "c13.div_remainder_size");
+        VF_ASSERT(ref_cmp_mag(&rr, &rb) < 0, "c13.div_remainder_smaller_than_divisor");
+#if VF_MOD
+        /* pstm_mod: result has the sign of b (or is zero); a - r is a multiple
+           of b: checked through the quotient recomputed by pstm_div */
+        VF_ASSERT(ref_is_zero(&rr) || rr.neg == rb.neg, "c13.mod_sign_of_modulus");
+        rc32 = pstm_div(NULL, a, b, &Q, NULL);
+        to_ref(&Q, &rq);
+        if (!ref_is_zero(&rr) && ra.neg != rb.neg)
+        {
+            /* r = r_trunc + b  =>  |r_trunc| = |b| - |r| */
+            ref_t tmp;
+            ref_sub_mag(&rb, &rr, &tmp);
+            rr = tmp;
+        }
+#else
+        to_ref(&Q, &rq);
+        VF_ASSERT(Q.used <= ND, "c13.div_quotient_size");
+        VF_ASSERT(ref_is_zero(&rr) || rr.neg == ra.neg, "c13.div_remainder_sign");
+        VF_ASSERT(ref_is_zero(&rq) || rq.neg == (ra.neg != rb.neg), "c13.div_quotient_sign");
+#endif
+        /* |a| == |q| * |b| + |r| by shift-and-add over the quotient bits */
+        memset(&acc, 0, sizeof(acc));
+        t = rb;
+        for (k = 0; k < VF_QBITS + 1; k++)
+        {
+            if ((rq.d[0] >> k) & 1)
+            {
+                ref_t s2;
+                ref_add_mag(&acc, &t, &s2);
+                acc = s2;
+            }
+            {
+                ref_t dbl;
+                ref_add_mag(&t, &t, &dbl);
+                t = dbl;
+            }
+        }
+        for (i = 1; i < ND; i++)
+        {
+            VF_ASSERT(rq.d[i] == 0, "c13.div_quotient_within_bound");
+        }
+        VF_ASSERT((rq.d[0] >> (VF_QBITS + 1)) == 0, "c13.div_quotient_within_bound");
+        {
+            ref_t sum;
+            int same = 1;
+            ref_add_mag(&acc, &rr, &sum);
+            for (i = 0; i < ND; i++)
+            {
+                same &= (sum.d[i] == ra.d[i]);
+            }
+            VF_ASSERT(same, "c13.div_exact");
+        }
     }
 #endif
     VF_REACH("end");
